@@ -284,7 +284,9 @@ def run(tier, replay=None):
                 ds = synth.make_dataset(r, tmp, n_samples=3, n_loci=3, ploidies=(4,), max_snvs=3, depth=(2, 5))
                 inb = tmp + "/inbreeding.tsv"
                 with open(inb, "w") as fh:
-                    for s_, f_ in zip(ds.samples, [0.0, 0.3, 0.7, 0.1, 0.5]):
+                    # a map by sample name: lines in reverse order of the samples, plus a sample that is not in the run
+                    fh.write("NOT_IN_RUN\t0.9\n")
+                    for s_, f_ in reversed(list(zip(ds.samples, [0.0, 0.3, 0.7, 0.1, 0.5]))):
                         fh.write(f"{s_}\t{f_}\n")
                 out, rc, err = synth.run_program(ds.assemble_argv("--mcmc-steps", "300", "--mcmc-burn", "100", "--mcmc-seed", "11"))
                 if rc != 0:
